@@ -71,6 +71,24 @@ Theorem C09_sorted_flag_irrelevant : forall xs mn mx, StronglySorted Qle xs -> b
 Proof. exact bounds_sorted_flag. Qed.
 Print Assumptions C09_sorted_flag_irrelevant.
 
+(* weighted Bounds ignores zero-weight values: it is Bounds of the values carrying a non-zero
+   weight ([used]), hence (C09_bounds_def) their least and greatest element, NaN if there is none *)
+Theorem C09_weighted_bounds_def : forall xs ws, xs <> [] ->
+  sample_bounds (mkSample xs (Some ws) false) = bounds (used (combine xs ws)).
+Proof. exact weighted_bounds_unsorted. Qed.
+Print Assumptions C09_weighted_bounds_def.
+
+(* ... and the Sorted fast path (first / last non-zero weight) agrees on ascending data *)
+Theorem C09_weighted_sorted_flag_irrelevant : forall xs ws, xs <> [] -> length ws = length xs -> StronglySorted Qle xs ->
+  obounds_eq (sample_bounds (mkSample xs (Some ws) true)) (sample_bounds (mkSample xs (Some ws) false)).
+Proof. exact weighted_bounds_sorted_flag. Qed.
+Print Assumptions C09_weighted_sorted_flag_irrelevant.
+
+Theorem C09_int_weights_bounds_eq_repeat : forall xs ws, xs <> [] -> length ws = length xs ->
+  obounds_eq (sample_bounds (mkSample xs (Some (map Qofnat ws)) false)) (bounds (repeat_by_weights xs ws)).
+Proof. exact int_weights_bounds_eq_repeat. Qed.
+Print Assumptions C09_int_weights_bounds_eq_repeat.
+
 (* ---- non-negative integer weights = each value repeated weight times ---- *)
 Theorem C09_int_weights_eq_repeat : forall xs ws st, length ws = length xs -> repeat_by_weights xs ws <> [] ->
   fres_eq (sample_mean (mkSample xs (Some (map Qofnat ws)) st)) (mean (repeat_by_weights xs ws)) /\
